@@ -4,6 +4,7 @@ go 1.19
 
 require (
 	github.com/GuanceCloud/platypus v0.0.0
+	github.com/spf13/cast v1.5.0
 	go.uber.org/zap v1.23.0
 )
 
@@ -21,7 +22,6 @@ require (
 	github.com/golang/groupcache v0.0.0-20200121045136-8c9f03a8e57e // indirect
 	github.com/mssola/user_agent v0.5.3 // indirect
 	github.com/pkg/errors v0.9.1 // indirect
-	github.com/spf13/cast v1.5.0 // indirect
 	github.com/tidwall/gjson v1.14.3 // indirect
 	github.com/tidwall/match v1.1.1 // indirect
 	github.com/tidwall/pretty v1.2.0 // indirect
